@@ -5,17 +5,39 @@
 //! `cons chain` — a real `Chain` in `$VERIF_WORK` under AutomatedTesting with real PoW: a valid
 //!                chain across all header versions, and every single-field mutation of the next
 //!                header delivered through the real pipeline.
+//! `cons powsize` — the proof of work is verified on the graph size the header CLAIMS: cycles
+//!                solved (by the harness, on explicitly sized contexts) at several small sizes and
+//!                relabelled to every edge_bits 1..63, through `pow::verify_size`,
+//!                `UntrustedBlockHeader::read` and a real `Chain`; random non-solutions with nonces
+//!                spread over the full claimed range (error kinds) on all four chain types.
+//! `cons wire`  — every network entry path of a header (bare header, header list, compact block,
+//!                full block; `Untrusted*` readers directly and through the real p2p `Codec`)
+//!                applies the same network-side header rules.
+//!
+//! The siphash function lives in a private module of grin_core; the *real source file* is compiled
+//! into this binary by path (as in `pow.rs`) for the harness' own cycle rule.
+#[allow(dead_code)]
+#[path = "/repo/core/src/pow/siphash.rs"]
+mod siphash;
+
 use grin_core::consensus::{self, HeaderDifficultyInfo};
 use grin_core::core::block::HeaderVersion;
 use grin_core::core::hash::Hashed;
 use grin_core::global::{self, ChainTypes};
-use grin_core::pow::{Difficulty, Proof, ProofOfWork};
+use grin_core::pow::{CuckatooContext, Difficulty, PoWContext, Proof, ProofOfWork};
 use chrono::{DateTime, Duration, Utc};
 use grin_chain::types::NoopAdapter;
 use grin_chain::{Chain, Options};
 use grin_core::core::block::UntrustedBlockHeader;
 use grin_core::core::hash::Hash;
-use grin_core::core::{Block, BlockHeader};
+use grin_core::core::{
+	Block, BlockHeader, CompactBlock, Input, Inputs, KernelFeatures, OutputFeatures, Transaction, UntrustedBlock,
+	UntrustedCompactBlock,
+};
+use grin_p2p::msg::{write_message, Headers, Message, Msg, Type};
+use grin_p2p::verif_export::{Codec, Tracker};
+use std::io::{Read, Write};
+use std::net::{Shutdown, TcpListener, TcpStream};
 use grin_core::ser::{self, DeserializationMode, ProtocolVersion};
 use grin_core::{genesis, libtx, pow};
 use grin_keychain::{ExtKeychain, ExtKeychainPath, Keychain};
@@ -3182,6 +3204,1300 @@ fn untrusted_lines(out: &mut Out, stats: &mut Stats, v: &BlockHeader, rng: &mut 
 	}
 }
 
+// ---------------------------------------------------------------------------------------------
+// powsize mode: the proof of work is verified on the graph size the header CLAIMS
+// ---------------------------------------------------------------------------------------------
+
+/// `<pre_pow hex>/<n1.n2.….nk | ->/<abstract header>`: what the verifier is seeded with, the proof
+/// nonces, the rule fields
+fn nh_token(h: &BlockHeader) -> String {
+	let ns: Vec<String> = h.pow.proof.nonces.iter().map(|n| n.to_string()).collect();
+	format!(
+		"{}/{}/{}",
+		hex(&h.pre_pow()),
+		if ns.is_empty() { "-".to_string() } else { ns.join(".") },
+		show_hdr(h)
+	)
+}
+
+fn vs_class(r: Option<Result<(), pow::Error>>) -> String {
+	match r {
+		None => "panic".to_string(),
+		Some(Ok(())) => "ok".to_string(),
+		Some(Err(pow::Error::Verification(s))) => match s.as_str() {
+			"wrong cycle length" => "wronglen",
+			"edge too big" => "toobig",
+			"edges not ascending" => "notasc",
+			"edges not balanced" => "notbal",
+			"endpoints don't match up" => "nomatch",
+			"branch in cycle" => "branch",
+			"cycle dead ends" => "deadend",
+			"cycle too short" => "tooshort",
+			"cycle does not close" => "noclose",
+			"no cuckaroo past HardFork4" => "noctx",
+			"graph is to big to build" => "toobiggraph",
+			_ => "other",
+		}
+		.to_string(),
+		Some(Err(_)) => "othererr".to_string(),
+	}
+}
+
+/// the siphash keys the real code derives from `pre_pow` — observed on a context object of a FIXED
+/// size built with the explicit constructor (never through `create_pow_context`)
+fn real_keys(pre: &[u8]) -> [u64; 4] {
+	let mut c = CuckatooContext::new_impl(12, 8, 1).unwrap();
+	c.set_header_nonce_impl(pre.to_vec(), None, false).unwrap();
+	let mut k = [0u64; 4];
+	for i in 0..4 {
+		k[i] = u64::from_str_radix(&c.sipkey_hex(i).unwrap(), 16).unwrap();
+	}
+	k
+}
+
+/// The rule, evaluated by the harness itself (degree counting + union-find, no verifier code):
+/// exactly `ps` nonces, strictly ascending, all below 2^eb, forming ONE simple cycle through all of
+/// them in the Cuckatoo graph OF SIZE `eb` seeded by `keys` (vertices = (side, node >> 1), two edge
+/// ends meet where their nodes differ exactly in the lowest bit).
+fn cuckatoo_rule(keys: &[u64; 4], eb: u8, ps: usize, nonces: &[u64]) -> bool {
+	if eb == 0 || eb > 63 || ps == 0 || nonces.len() != ps {
+		return false;
+	}
+	let mask = (1u64 << eb) - 1;
+	if nonces.iter().any(|n| *n > mask) || nonces.windows(2).any(|w| w[0] >= w[1]) {
+		return false;
+	}
+	let mut ends: Vec<(u64, u64, usize)> = Vec::with_capacity(2 * ps);
+	for (i, n) in nonces.iter().enumerate() {
+		let u = siphash::siphash24(keys, 2 * n) & mask;
+		let v = siphash::siphash24(keys, 2 * n + 1) & mask;
+		ends.push((u >> 1, u, i));
+		ends.push(((1u64 << 63) | (v >> 1), v, i));
+	}
+	ends.sort_unstable();
+	let mut uf: Vec<usize> = (0..ps).collect();
+	fn find(uf: &mut Vec<usize>, x: usize) -> usize {
+		let mut r = x;
+		while uf[r] != r {
+			r = uf[r];
+		}
+		uf[x] = r;
+		r
+	}
+	let mut i = 0;
+	while i < ends.len() {
+		if i + 1 >= ends.len() || ends[i + 1].0 != ends[i].0 {
+			return false;
+		}
+		if i + 2 < ends.len() && ends[i + 2].0 == ends[i].0 {
+			return false;
+		}
+		if ends[i].1 == ends[i + 1].1 {
+			return false;
+		}
+		let (ra, rb) = (find(&mut uf, ends[i].2), find(&mut uf, ends[i + 1].2));
+		uf[ra] = rb;
+		i += 2;
+	}
+	let r0 = find(&mut uf, 0);
+	(0..ps).all(|e| find(&mut uf, e) == r0)
+}
+
+/// Solve a `ps`-cycle on the Cuckatoo graph of EXACTLY `eb` edge bits seeded by the header's
+/// pre_pow, on a context built with the explicit constructor `CuckatooContext::new_impl(eb, ..)`
+/// (from 2^19 edges on behind the repo's lean trimmer); bumps `pow.nonce` until a cycle exists whose
+/// difficulty reaches `min_diff`. Returns the number of graphs tried.
+fn solve_cuckatoo(h: &mut BlockHeader, eb: u8, ps: usize, min_diff: u64, max_graphs: u32) -> Option<u32> {
+	let t0 = std::time::Instant::now();
+	let budget_s = if tier_thorough() { 150 } else { 20 };
+	for t in 1..=max_graphs {
+		if t0.elapsed().as_secs() >= budget_s {
+			return None;
+		}
+		h.pow.nonce = h.pow.nonce.wrapping_add(1);
+		let pre = h.pre_pow();
+		let mut ctx = CuckatooContext::new_impl(eb, ps, 10).ok()?;
+		ctx.set_header_nonce_impl(pre.clone(), None, true).ok()?;
+		let sols = if eb >= 19 {
+			let mut lean = pow::lean::Lean::new(eb);
+			let l = pre.len();
+			let tail = u32::from_le_bytes([pre[l - 4], pre[l - 3], pre[l - 2], pre[l - 1]]);
+			lean.set_header_nonce(pre.clone(), tail);
+			lean.trim();
+			pc(|| lean.find_cycles(ctx))
+		} else {
+			pc(|| ctx.find_cycles())
+		};
+		if let Some(Ok(sols)) = sols {
+			for s in sols {
+				if s.nonces.len() != ps {
+					continue;
+				}
+				h.pow.proof = s;
+				h.pow.proof.edge_bits = eb;
+				if h.pow.to_difficulty(h.height).to_num() >= min_diff {
+					return Some(t);
+				}
+			}
+		}
+	}
+	None
+}
+
+fn rnd_header(height: u64, ts: i64, rng: &mut Rng) -> BlockHeader {
+	let mut h = BlockHeader::default();
+	h.height = height;
+	h.version = consensus::header_version(height);
+	set_ts(&mut h, ts);
+	h.prev_hash = Hash::from_vec(&rng.bytes(32));
+	h.prev_root = Hash::from_vec(&rng.bytes(32));
+	h.output_root = Hash::from_vec(&rng.bytes(32));
+	h.output_mmr_size = 1;
+	h.kernel_mmr_size = 1;
+	h.pow.total_difficulty = Difficulty::from_num(2 + rng.below(1000));
+	h.pow.secondary_scaling = global::initial_graph_weight();
+	h.pow.nonce = rng.next();
+	h.pow.proof.edge_bits = global::min_edge_bits();
+	h
+}
+
+fn ser_class(r: Option<Result<(), ser::Error>>) -> String {
+	match r {
+		None => "panic".to_string(),
+		Some(Ok(())) => "ok".to_string(),
+		Some(Err(ser::Error::InvalidBlockVersion)) => "InvalidBlockVersion".to_string(),
+		Some(Err(ser::Error::CorruptedData)) => "CorruptedData".to_string(),
+		Some(Err(e)) => format!("Other:{:?}", e).replace(' ', "_"),
+	}
+}
+
+/// run a decode inside one wall-clock second: returns (that second, result)
+fn in_one_second<R>(mut f: impl FnMut() -> R) -> (i64, R) {
+	loop {
+		let s0 = Utc::now().timestamp();
+		let r = f();
+		if Utc::now().timestamp() == s0 {
+			return (s0, r);
+		}
+	}
+}
+
+/// the header as it is on the wire under protocol version `pv`: serialised and read back with the
+/// plain (trusted) `BlockHeader` reader; `None`: cannot be written / read at all
+fn wire_header(h: &BlockHeader, pv: u32) -> Option<(Vec<u8>, Option<BlockHeader>)> {
+	let bytes = pc(|| ser::ser_vec(h, ProtocolVersion(pv)))?.ok()?;
+	let back = pc(|| {
+		ser::deserialize::<BlockHeader, _>(&mut &bytes[..], ProtocolVersion(pv), DeserializationMode::default())
+	})
+	.and_then(|r| r.ok());
+	Some((bytes, back))
+}
+
+fn allowed_edge_bits(eb: u8) -> bool {
+	eb == 29 || eb >= global::min_edge_bits()
+}
+
+/// one relabelled header through `pow::verify_size` and through `UntrustedBlockHeader::read`
+fn relabel_lines(
+	out: &mut Out,
+	stats: &mut Stats,
+	cname: &str,
+	solved: &BlockHeader,
+	label: u8,
+	testing_chain: bool,
+) {
+	let ps = global::proofsize();
+	let s = solved.pow.proof.edge_bits;
+	let mut h = solved.clone();
+	h.pow.proof.edge_bits = label;
+	let keys = real_keys(&h.pre_pow());
+	// (i) the verifier's entry point on the in-memory header
+	let res = if selftest("ctx-cap-20") {
+		let mut h2 = h.clone();
+		h2.pow.proof.edge_bits = std::cmp::min(label, 20);
+		vs_class(pc(|| pow::verify_size(&h2)))
+	} else {
+		vs_class(pc(|| pow::verify_size(&h)))
+	};
+	stats.hit(&format!("{}_vsz_{}", cname, if label == s { "honest" } else { "relabel" }));
+	stats.hit(&format!("{}_vsz_res_{}", cname, res));
+	if testing_chain {
+		let rule = cuckatoo_rule(&keys, label, ps, &h.pow.proof.nonces);
+		if rule && label != s {
+			stats.hit("coincidence_cycle_at_other_size");
+		}
+		if res == "ok" && !rule {
+			out.raw(&format!(
+				"#ORACLE-FAIL C04 verify_size accepts a cycle solved on 2^{} edges under the claimed edge_bits {} where it is no cycle: chain={} height={} pre_pow={} nonces={}",
+				s, label, cname, h.height, hex(&h.pre_pow()), nat_list(&h.pow.proof.nonces)
+			));
+		}
+		if res != "ok" && rule && label != 63 {
+			out.raw(&format!(
+				"#ORACLE-FAIL C04 verify_size refuses ({}) a genuine cycle of the graph of the claimed edge_bits {}: chain={} height={} pre_pow={} nonces={}",
+				res, label, cname, h.height, hex(&h.pre_pow()), nat_list(&h.pow.proof.nonces)
+			));
+		}
+	} else if res == "ok" && label != s {
+		out.raw(&format!(
+			"#ORACLE-FAIL C04 verify_size accepts the {} genesis proof (edge_bits {}) relabelled to edge_bits {}",
+			cname, s, label
+		));
+	}
+	if res == "panic" {
+		out.raw(&format!(
+			"#ORACLE-FAIL C04 verify_size panicked: chain={} height={} edge_bits={} pre_pow={} nonces={}",
+			cname, h.height, label, hex(&h.pre_pow()), nat_list(&h.pow.proof.nonces)
+		));
+	}
+	out.line(&format!("cons vsz {} {}", cname, nh_token(&h)), &res);
+	// (ii) the same header serialised and read back from the network — where the relabelled header
+	// can be expressed on the wire at all (nonces are packed at the claimed width)
+	if label < 64 && h.pow.proof.nonces.iter().any(|n| (*n >> label) != 0) {
+		stats.hit(&format!("{}_wire_inexpressible", cname));
+		return;
+	}
+	let pv = 1 + (label as u32 % 3);
+	match wire_header(&h, pv) {
+		None => stats.hit(&format!("{}_wire_unwritable", cname)),
+		Some((bytes, back)) => {
+			let ftl = global::get_future_time_limit();
+			let (now, r) = in_one_second(|| {
+				pc(|| {
+					ser::deserialize::<UntrustedBlockHeader, _>(
+						&mut &bytes[..],
+						ProtocolVersion(pv),
+						DeserializationMode::default(),
+					)
+					.map(|_| ())
+				})
+			});
+			let class = ser_class(r);
+			stats.hit(&format!("{}_wire_res_{}", cname, class));
+			match back {
+				None => out.line(&format!("cons wiredec hdr {} {} {}", pv, cname, label), &class),
+				Some(w) => {
+					if class == "ok" {
+						let wk = real_keys(&w.pre_pow());
+						let good = allowed_edge_bits(label)
+							&& (!testing_chain || cuckatoo_rule(&wk, label, ps, &w.pow.proof.nonces))
+							&& (testing_chain || label == s);
+						if !good {
+							out.raw(&format!(
+								"#ORACLE-FAIL C04 relabelled header decoded from the network (UntrustedBlockHeader): solved at edge_bits {}, claims {}: chain={} hdr={} nonces={}",
+								s, label, cname, show_hdr(&w), nat_list(&w.pow.proof.nonces)
+							));
+						}
+					}
+					out.line(
+						&format!("cons wire hdr {} {} {} {} {}", pv, cname, now, ftl, nh_token(&w)),
+						&class,
+					);
+				}
+			}
+		}
+	}
+}
+
+/// random non-solutions: ascending / not ascending / out-of-range nonce lists spread over the whole
+/// range the CLAIMED edge bits allow (and beyond), for the error kind of the verifier
+fn nonsolution(rng: &mut Rng, label: u8, ps: usize) -> (String, Vec<u64>) {
+	let top: u64 = if label >= 64 { u64::MAX } else { (1u64 << label) - 1 };
+	let asc_in = |rng: &mut Rng, lo: u64, hi: u64, n: usize| -> Vec<u64> {
+		// n ascending values in [lo, hi] where the range allows, else ascending from lo
+		let span = hi.saturating_sub(lo);
+		let mut v: Vec<u64> = if span as u128 + 1 >= 4 * n as u128 {
+			let mut v: Vec<u64> = (0..n).map(|_| lo + rng.below(span.wrapping_add(1).max(1))).collect();
+			v.sort_unstable();
+			v.dedup();
+			v
+		} else {
+			vec![]
+		};
+		let mut next = v.last().map(|x| x.wrapping_add(1)).unwrap_or(lo);
+		while v.len() < n {
+			v.push(next);
+			next = next.wrapping_add(1);
+		}
+		v
+	};
+	let k = rng.below(ps as u64) as usize;
+	match rng.below(12) {
+		0 | 1 => ("in-range".into(), asc_in(rng, 0, top, ps)),
+		2 => {
+			// everything in the upper part of the claimed range (above 2^20 where there is room)
+			let lo = if label > 21 { 1u64 << 20 } else { top / 2 };
+			("in-range-high".into(), asc_in(rng, lo, top, ps))
+		}
+		3 => {
+			let mut v = asc_in(rng, 0, top.saturating_sub(1), ps);
+			v[ps - 1] = top;
+			("last=2^eb-1".into(), v)
+		}
+		4 => {
+			let mut v = asc_in(rng, 0, top.saturating_sub(1), ps);
+			v[ps - 1] = top.wrapping_add(1);
+			("last=2^eb".into(), v)
+		}
+		5 => {
+			let mut v = asc_in(rng, 0, top.saturating_sub(1), ps);
+			v[ps - 1] = top.saturating_add(2 + rng.below(1 << 16));
+			("last>2^eb".into(), v)
+		}
+		6 => {
+			let mut v = asc_in(rng, 0, top, ps);
+			v[k] = top.wrapping_add(1);
+			("one=2^eb".into(), v)
+		}
+		7 => ("full-u64-range".into(), asc_in(rng, 0, u64::MAX - 1, ps)),
+		8 => {
+			let mut v = asc_in(rng, 0, top, ps);
+			if k > 0 {
+				v.swap(k - 1, k);
+			} else {
+				v[1] = v[0];
+			}
+			("not-ascending".into(), v)
+		}
+		9 => {
+			// which check comes first: an out-of-range nonce and a descent at different positions
+			let mut v = asc_in(rng, 0, top, ps);
+			let j = rng.below(ps as u64) as usize;
+			v[j] = top.saturating_add(1 + rng.below(1000));
+			if k > 0 {
+				v.swap(k - 1, k);
+			}
+			("too-big+descent".into(), v)
+		}
+		10 => {
+			let n = if rng.chance(1, 2) { ps - 1 } else { ps + 1 };
+			("wrong-count".into(), asc_in(rng, 0, top, n))
+		}
+		_ => {
+			// just around 2^20 (the largest size the other runs ever solve)
+			let mut v = asc_in(rng, 0, (1u64 << 20) - 2, ps);
+			v[ps - 1] = (1u64 << 20) - 1 + rng.below(3);
+			("around-2^20".into(), v)
+		}
+	}
+}
+
+fn era_heights(ct: ChainTypes) -> Vec<u64> {
+	match ct {
+		ChainTypes::Mainnet => {
+			let i = consensus::HARD_FORK_INTERVAL;
+			vec![0, 1, i - 1, i, 2 * i - 1, 2 * i, 3 * i, 4 * i - 1, 4 * i, 5 * i]
+		}
+		ChainTypes::Testnet => vec![
+			0,
+			1,
+			consensus::TESTNET_FIRST_HARD_FORK - 1,
+			consensus::TESTNET_FIRST_HARD_FORK,
+			consensus::TESTNET_SECOND_HARD_FORK,
+			consensus::TESTNET_THIRD_HARD_FORK,
+			consensus::TESTNET_FOURTH_HARD_FORK - 1,
+			consensus::TESTNET_FOURTH_HARD_FORK,
+		],
+		_ => vec![1, 2, 3, 6, 9, 11, 12, 50],
+	}
+}
+
+fn run_powsize(out: &mut Out, rng: &mut Rng, thorough: bool) {
+	let mut stats = Stats(BTreeMap::new());
+	let now = Utc::now().timestamp();
+	// ---- (a) real cycles, relabelled to every other size
+	let auto_sizes: Vec<u8> = if thorough {
+		vec![10, 10, 10, 11, 11, 12, 13, 14, 15, 15, 16, 17, 18, 19, 20, 20, 21, 22]
+	} else {
+		vec![10, 10, 11, 12, 13, 15, 16, 19, 20]
+	};
+	let user_sizes: Vec<u8> = if thorough { vec![15, 15, 16, 17, 18, 19, 20] } else { vec![15, 16] };
+	for (ct, cname, sizes) in [
+		(ChainTypes::AutomatedTesting, "auto", auto_sizes),
+		(ChainTypes::UserTesting, "user", user_sizes),
+	] {
+		global::set_local_chain_type(ct);
+		global::set_local_future_time_limit(*rng.pick(&[0u64, 300, 720]));
+		let ps = global::proofsize();
+		let hs = era_heights(ct);
+		for s in sizes {
+			let t0 = std::time::Instant::now();
+			let mut h = rnd_header(*rng.pick(&hs), now - 1000 - rng.below(100_000) as i64, rng);
+			let max_graphs = 40 * ps as u32;
+			match solve_cuckatoo(&mut h, s, ps, 0, max_graphs) {
+				None => {
+					stats.hit(&format!("{}_unsolved_{}", cname, s));
+					continue;
+				}
+				Some(t) => {
+					stats.hit(&format!("{}_solved_at_{}", cname, s));
+					out.raw(&format!(
+						"# solved chain={} edge_bits={} proofsize={} graphs={} ms={}",
+						cname,
+						s,
+						ps,
+						t,
+						t0.elapsed().as_millis()
+					));
+				}
+			}
+			for label in 1..=63u8 {
+				relabel_lines(out, &mut stats, cname, &h, label, true);
+			}
+		}
+	}
+	// Mainnet / Testnet: the genesis headers carry real 42-cycles (Cuckaroo29); relabelled to every
+	// size (below 30: the Cuckaroo variant of the height at that size, above: Cuckatoo at that size)
+	for (ct, cname) in [(ChainTypes::Mainnet, "main"), (ChainTypes::Testnet, "test")] {
+		global::set_local_chain_type(ct);
+		global::set_local_future_time_limit(300);
+		let g = if ct == ChainTypes::Mainnet { genesis::genesis_main() } else { genesis::genesis_test() };
+		if vs_class(pc(|| pow::verify_size(&g.header))) != "ok" {
+			out.raw(&format!("#ORACLE-FAIL C04 the {} genesis header does not verify", cname));
+		}
+		for label in 1..=63u8 {
+			relabel_lines(out, &mut stats, cname, &g.header, label, false);
+		}
+	}
+	// ---- (b) error kinds over the whole claimed range, every chain type
+	let n_cases = if thorough { 4000 } else { 700 };
+	for (ct, cname) in CTS.iter() {
+		global::set_local_chain_type(*ct);
+		let ps = global::proofsize();
+		let hs = era_heights(*ct);
+		for i in 0..n_cases {
+			let label: u8 = match rng.below(10) {
+				0..=3 => rng.range(1, 63) as u8,
+				4..=6 => rng.range(21, 63) as u8,
+				_ => *rng.pick(&[10u8, 15, 19, 20, 21, 22, 28, 29, 30, 31, 32, 33, 62, 63]),
+			};
+			let height = if i % 5 == 0 { rng.below(1 << 22) } else { *rng.pick(&hs) };
+			let mut h = rnd_header(height, now - 1000, rng);
+			h.pow.proof.edge_bits = label;
+			let (kind, nonces) = nonsolution(rng, label, ps);
+			h.pow.proof.nonces = nonces;
+			let res = if selftest("ctx-cap-20") {
+				let mut h2 = h.clone();
+				h2.pow.proof.edge_bits = std::cmp::min(label, 20);
+				vs_class(pc(|| pow::verify_size(&h2)))
+			} else {
+				vs_class(pc(|| pow::verify_size(&h)))
+			};
+			stats.hit(&format!("kind_{}", kind));
+			stats.hit(&format!("{}_err_{}", cname, res));
+			stats.hit(&format!(
+				"label_{}",
+				match label {
+					1..=9 => "1-9",
+					10..=20 => "10-20",
+					21..=28 => "21-28",
+					29 => "29",
+					30..=40 => "30-40",
+					_ => "41-63",
+				}
+			));
+			if res == "ok" || res == "panic" {
+				out.raw(&format!(
+					"#ORACLE-FAIL C04 verify_size answers {} on a made-up nonce list ({}): chain={} height={} edge_bits={} pre_pow={} nonces={}",
+					res, kind, cname, h.height, label, hex(&h.pre_pow()), nat_list(&h.pow.proof.nonces)
+				));
+			}
+			out.line(&format!("cons vsz {} {}", cname, nh_token(&h)), &res);
+		}
+	}
+	// ---- (c) relabelled headers delivered to a real Chain (validate_header / validate_pow_only)
+	global::set_local_chain_type(ChainTypes::AutomatedTesting);
+	let work = std::env::var("VERIF_WORK").unwrap_or_else(|_| "/verif/work/cons-powsize.d".to_string());
+	let _ = std::fs::remove_dir_all(format!("{}/psz", work));
+	std::fs::create_dir_all(&work).unwrap();
+	let kc = ExtKeychain::from_seed(&rng.bytes(32), false).unwrap();
+	let genesis = {
+		let key_id = ExtKeychain::derive_key_id(0, 1, 0, 0, 0);
+		let reward = libtx::reward::output(&kc, &libtx::ProofBuilder::new(&kc), &key_id, 0, false).unwrap();
+		genesis::genesis_dev().with_reward(reward.0, reward.1)
+	};
+	let node = open_chain(&format!("{}/psz", work), &genesis);
+	let ps = global::proofsize();
+	let n_blocks: u32 = if thorough { 14 } else { 6 };
+	for n in 1..=n_blocks {
+		let s: u8 = *rng.pick(&[10u8, 10, 11, 12, 13]);
+		let chain = &node.chain;
+		let prev = chain.head_header().unwrap();
+		let next = consensus::next_difficulty(prev.height + 1, chain.difficulty_iter().unwrap());
+		let pk = ExtKeychainPath::new(1, n, 0, 0, 0).to_identifier();
+		let reward = libtx::reward::output(&kc, &libtx::ProofBuilder::new(&kc), &pk, 0, false).unwrap();
+		let mut b = Block::new(&prev, &[], next.difficulty, reward).unwrap();
+		b.header.timestamp = prev.timestamp + Duration::seconds(rng.range(1, 300) as i64);
+		b.header.pow.secondary_scaling = next.secondary_scaling;
+		chain.set_txhashset_roots(&mut b).unwrap();
+		if solve_cuckatoo(&mut b.header, s, ps, next.difficulty.to_num(), 4000).is_none() {
+			stats.hit("chain_unsolved");
+			break;
+		}
+		let v = b.header.clone();
+		let keys = real_keys(&v.pre_pow());
+		for label in 1..=63u8 {
+			if label == s {
+				continue;
+			}
+			if cuckatoo_rule(&keys, label, ps, &v.pow.proof.nonces) {
+				// a genuine cycle of the other graph as well: a valid header, not a probe
+				stats.hit("chain_coincidence_skipped");
+				continue;
+			}
+			let mut h = v.clone();
+			h.pow.proof.edge_bits = label;
+			// only what can arrive from the wire (nonces are packed at the claimed width; an
+			// in-memory proof with wider nonces makes `Proof::pack_nonces`, hence `hash()`, panic)
+			if h.pow.proof.nonces.iter().any(|x| (*x >> label) != 0) || wire_header(&h, 3).and_then(|x| x.1).is_none() {
+				stats.hit("chain_inexpressible_skipped");
+				continue;
+			}
+			let via = ["pbh", "sync", "pb"][(label as usize + n as usize) % 3];
+			let opts = [Options::NONE, Options::SYNC, Options::MINE][(label as usize / 3) % 3];
+			let window = window_at(chain, h.prev_hash);
+			let res = match via {
+				"pbh" => pc(|| chain.process_block_header(&h, opts).map(|_| ())),
+				"sync" => pc(|| {
+					let sync_head = chain.header_head().unwrap();
+					chain.sync_block_headers(&[h.clone()], sync_head, opts).map(|_| ())
+				}),
+				_ => pc(|| {
+					let mut bb = b.clone();
+					bb.header = h.clone();
+					chain.process_block(bb, opts).map(|_| ())
+				}),
+			};
+			let class = match &res {
+				None => "panic".to_string(),
+				Some(Ok(())) => "ok".to_string(),
+				Some(Err(e)) => chain_err_class(e),
+			};
+			stats.hit(&format!("chain_{}_{}", via, class));
+			if class == "ok" || class == "panic" {
+				out.raw(&format!(
+					"#ORACLE-FAIL C04 the chain answers {} via {} to a header whose cycle was solved on 2^{} edges and which claims edge_bits {}: hdr={} nonces={}",
+					class, via, s, label, show_hdr(&h), nat_list(&h.pow.proof.nonces)
+				));
+			}
+			out.line(
+				&format!(
+					"cons pbhn {} auto {} 1 {} {} {}",
+					via,
+					opts.bits(),
+					show_hdr(&prev),
+					nh_token(&h),
+					show_window(&window)
+				),
+				&class,
+			);
+		}
+		// the honest header and block
+		let window = window_at(chain, v.prev_hash);
+		let res = pc(|| chain.process_block_header(&v, Options::NONE).map(|_| ()));
+		let class = match &res {
+			None => "panic".to_string(),
+			Some(Ok(())) => "ok".to_string(),
+			Some(Err(e)) => chain_err_class(e),
+		};
+		out.line(
+			&format!(
+				"cons pbhn pbh auto 0 1 {} {} {}",
+				show_hdr(&prev),
+				nh_token(&v),
+				show_window(&window)
+			),
+			&class,
+		);
+		stats.hit(&format!("chain_honest_at_{}_{}", s, class));
+		let r = chain.process_block(b.clone(), Options::NONE);
+		let head = chain.head().unwrap();
+		if r.is_err() || head.last_block_h != v.hash() {
+			out.raw(&format!(
+				"#ORACLE-FAIL C04 honest block solved at edge_bits {} not accepted as head at height {}: {:?}",
+				s,
+				v.height,
+				r.err()
+			));
+			break;
+		}
+	}
+	stats.dump(out, "powsize");
+}
+
+// ---------------------------------------------------------------------------------------------
+// wire mode: every network entry path of a header applies the network-side header rules
+// ---------------------------------------------------------------------------------------------
+
+/// what a reader handed over
+#[derive(Clone)]
+enum Got {
+	Nothing,
+	Header(BlockHeader),
+	Headers(Vec<BlockHeader>),
+	Compact(CompactBlock),
+	Full(Block),
+}
+
+fn p2p_err_class(e: &grin_p2p::Error) -> String {
+	match e {
+		grin_p2p::Error::Serialization(se) => ser_class(Some(Err(se.clone()))),
+		other => {
+			let d = format!("{:?}", other);
+			format!("P2p:{}", d.chars().take_while(|c| c.is_alphanumeric()).collect::<String>())
+		}
+	}
+}
+
+/// the object read directly through its `Untrusted*` reader
+fn decode_direct(path: &str, bytes: &[u8], pv: u32) -> (String, Got) {
+	let v = ProtocolVersion(pv);
+	let m = DeserializationMode::default();
+	match path {
+		"hdr" => match pc(|| ser::deserialize::<UntrustedBlockHeader, _>(&mut &bytes[..], v, m)) {
+			None => ("panic".into(), Got::Nothing),
+			Some(Ok(h)) => ("ok".into(), Got::Header(h.into())),
+			Some(Err(e)) => (ser_class(Some(Err(e))), Got::Nothing),
+		},
+		"cblk" => match pc(|| ser::deserialize::<UntrustedCompactBlock, _>(&mut &bytes[..], v, m)) {
+			None => ("panic".into(), Got::Nothing),
+			Some(Ok(c)) => ("ok".into(), Got::Compact(c.into())),
+			Some(Err(e)) => (ser_class(Some(Err(e))), Got::Nothing),
+		},
+		_ if selftest("blk-skips-rules") => match pc(|| ser::deserialize::<Block, _>(&mut &bytes[..], v, m)) {
+			None => ("panic".into(), Got::Nothing),
+			Some(Ok(b)) => ("ok".into(), Got::Full(b)),
+			Some(Err(e)) => (ser_class(Some(Err(e))), Got::Nothing),
+		},
+		_ => match pc(|| ser::deserialize::<UntrustedBlock, _>(&mut &bytes[..], v, m)) {
+			None => ("panic".into(), Got::Nothing),
+			Some(Ok(b)) => ("ok".into(), Got::Full(b.into())),
+			Some(Err(e)) => (ser_class(Some(Err(e))), Got::Nothing),
+		},
+	}
+}
+
+/// a framed p2p message (real `Msg::new` + `write_message`, fresh tracker: no pacing delay)
+fn msg_bytes<T: ser::Writeable>(ty: Type, obj: &T, pv: u32) -> Option<Vec<u8>> {
+	let msg = pc(|| Msg::new(ty, obj, ProtocolVersion(pv)))?.ok()?;
+	let mut v: Vec<u8> = Vec::new();
+	write_message(&mut v, &msg, Arc::new(Tracker::new())).ok()?;
+	Some(v)
+}
+
+/// the framed message delivered over a loopback connection and read with the real `Codec`
+/// (`Codec::read` → `decode_message` → the `Untrusted*` reader of the message type; a `Headers`
+/// message header by header). Returns the class and everything the codec handed out.
+fn decode_codec(stream_bytes: &[u8], pv: u32) -> (String, Vec<Got>) {
+	let listener = TcpListener::bind("127.0.0.1:0").unwrap();
+	let addr = listener.local_addr().unwrap();
+	let to_write = stream_bytes.to_vec();
+	let writer = std::thread::spawn(move || {
+		let mut s = TcpStream::connect(addr).unwrap();
+		let _ = s.set_nodelay(true);
+		let _ = s.write_all(&to_write);
+		let _ = s.flush();
+		let _ = s.shutdown(Shutdown::Write);
+		let mut sink = [0u8; 16];
+		let _ = s.read(&mut sink);
+	});
+	let (stream, _) = listener.accept().unwrap();
+	let mut codec = Codec::new(ProtocolVersion(pv), stream.try_clone().unwrap());
+	let mut got: Vec<Got> = vec![];
+	let class;
+	loop {
+		let next = match std::panic::catch_unwind(AssertUnwindSafe(|| codec.read())) {
+			Ok((m, _)) => m,
+			Err(_) => {
+				class = "panic".to_string();
+				break;
+			}
+		};
+		match next {
+			Ok(Message::Header(h)) => {
+				got.push(Got::Header(h.into()));
+				class = "ok".to_string();
+				break;
+			}
+			Ok(Message::CompactBlock(c)) => {
+				got.push(Got::Compact(c.into()));
+				class = "ok".to_string();
+				break;
+			}
+			Ok(Message::Block(b)) => {
+				got.push(Got::Full(b.into()));
+				class = "ok".to_string();
+				break;
+			}
+			Ok(Message::Headers(d)) => {
+				let rem = d.remaining;
+				got.push(Got::Headers(d.headers));
+				if rem == 0 {
+					class = "ok".to_string();
+					break;
+				}
+			}
+			Ok(_) => {
+				class = "P2p:OtherMessage".to_string();
+				break;
+			}
+			Err(e) => {
+				class = p2p_err_class(&e);
+				break;
+			}
+		}
+	}
+	let _ = codec.stream().shutdown(Shutdown::Both);
+	drop(stream);
+	let _ = writer.join();
+	(class, got)
+}
+
+/// the block as a peer speaking protocol version 1 or 2 sends it: inputs with their features
+/// (every input of these chains spends a coinbase); same header, same hash
+fn features_form(b: &Block) -> Block {
+	let mut w = b.clone();
+	let commits: Vec<grin_core::core::CommitWrapper> = b.inputs().into();
+	let ins: Vec<Input> = commits
+		.iter()
+		.map(|c| Input::new(OutputFeatures::Coinbase, c.commitment()))
+		.collect();
+	w.body.inputs = Inputs::FeaturesAndCommit(ins);
+	w
+}
+
+/// pipeline self-tests (never set by `./check`): pretend the implementation has a defect and see
+/// that the run reports it. `VERIF_CONS_SELFTEST=blk-skips-rules`: the full-block path reads the
+/// header with the plain reader; `ctx-cap-20`: the verifier context is built at min(edge_bits, 20).
+fn selftest(name: &str) -> bool {
+	std::env::var("VERIF_CONS_SELFTEST").map(|v| v == name).unwrap_or(false)
+}
+
+struct WVar {
+	kind: String,
+	field: &'static str,
+	block: Block,
+	/// decode second and timestamp offset classes are only meaningful for these
+	time_variant: bool,
+}
+
+const WIRE_PATHS: [&str; 6] = ["hdr", "cblk", "blk", "msg-hdr", "msg-cblk", "msg-blk"];
+
+/// the network-side rules evaluated by the harness itself on the header as it is on the wire
+/// (`None`: the header cannot be read at all): Some(reason) when it must be refused
+fn net_refusal(w: &Option<BlockHeader>, now: i64, ftl: u64) -> Option<&'static str> {
+	let h = match w {
+		None => return Some("unreadable"),
+		Some(h) => h,
+	};
+	if h.timestamp.timestamp() > now + ftl as i64 {
+		return Some("timestamp");
+	}
+	if h.version != consensus::header_version(h.height) {
+		return Some("version");
+	}
+	let eb = h.pow.proof.edge_bits;
+	if !allowed_edge_bits(eb) {
+		return Some("edge_bits");
+	}
+	if !cuckatoo_rule(&real_keys(&h.pre_pow()), eb, global::proofsize(), &h.pow.proof.nonces) {
+		return Some("pow");
+	}
+	None
+}
+
+fn run_wire(out: &mut Out, rng: &mut Rng, thorough: bool) {
+	global::set_local_chain_type(ChainTypes::AutomatedTesting);
+	let work = std::env::var("VERIF_WORK").unwrap_or_else(|_| "/verif/work/cons-wire.d".to_string());
+	let _ = std::fs::remove_dir_all(format!("{}/builder", work));
+	let _ = std::fs::remove_dir_all(format!("{}/subject", work));
+	std::fs::create_dir_all(&work).unwrap();
+	let mut stats = Stats(BTreeMap::new());
+	let mut matrix = Stats(BTreeMap::new());
+	let kc = ExtKeychain::from_seed(&rng.bytes(32), false).unwrap();
+	let genesis = {
+		let key_id = ExtKeychain::derive_key_id(0, 1, 0, 0, 0);
+		let reward = libtx::reward::output(&kc, &libtx::ProofBuilder::new(&kc), &key_id, 0, false).unwrap();
+		genesis::genesis_dev().with_reward(reward.0, reward.1)
+	};
+	let builder = open_chain(&format!("{}/builder", work), &genesis);
+	let mut subject = open_chain(&format!("{}/subject", work), &genesis);
+	let mut subject_gen = 0u32;
+	let n_blocks: u32 = if thorough { 40 } else { 14 };
+	let ps = global::proofsize();
+	let min_eb = global::min_edge_bits();
+	let start = Utc::now().timestamp() - 400_000;
+	let mut honest_blocks: Vec<Block> = vec![];
+	let mut reward_value: Vec<u64> = vec![0]; // by height
+	let mut fails = 0u64;
+	let mut at_limit_in_second = 0u64;
+	for n in 1..=n_blocks {
+		let ftl = *rng.pick(&[0u64, 1, 300, 720, 100_000]);
+		global::set_local_future_time_limit(ftl);
+		let prev = builder.chain.head_header().unwrap();
+		let next = consensus::next_difficulty(prev.height + 1, builder.chain.difficulty_iter().unwrap());
+		// from height 5 on every block carries a transaction spending the coinbase four blocks back
+		let fee: u64 = 2_000_000;
+		let mut txs: Vec<Transaction> = vec![];
+		if n >= 5 {
+			let m = n - 4;
+			let val = reward_value[m as usize];
+			let tx = chainkit::make_tx(
+				&kc,
+				&[(val, ExtKeychainPath::new(1, m, 0, 0, 0).to_identifier(), true)],
+				&[(val - fee, ExtKeychainPath::new(3, n, 0, 0, 0).to_identifier())],
+				KernelFeatures::Plain { fee: (fee as u32).into() },
+			)
+			.unwrap();
+			txs.push(tx);
+		}
+		let fees: u64 = if txs.is_empty() { 0 } else { fee };
+		reward_value.push(consensus::REWARD + fees);
+		let pk = ExtKeychainPath::new(1, n, 0, 0, 0).to_identifier();
+		let reward = libtx::reward::output(&kc, &libtx::ProofBuilder::new(&kc), &pk, fees, false).unwrap();
+		let mut b = Block::new(&prev, &txs, next.difficulty, reward).unwrap();
+		let honest_ts = std::cmp::max(prev.timestamp.timestamp(), start) + rng.range(1, 600) as i64;
+		set_ts(&mut b.header, honest_ts);
+		b.header.pow.secondary_scaling = next.secondary_scaling;
+		builder.chain.set_txhashset_roots(&mut b).unwrap();
+		b.header.pow.proof.edge_bits = min_eb;
+		pow::pow_size(&mut b.header, next.difficulty, ps, min_eb).unwrap();
+		let honest = b.clone();
+		let mk = |kind: &str, field: &'static str, f: &dyn Fn(&mut BlockHeader), remine: bool, tv: bool| -> Option<WVar> {
+			let mut blk = honest.clone();
+			f(&mut blk.header);
+			if remine {
+				let ts = blk.header.timestamp;
+				blk.header.pow.proof.edge_bits = min_eb;
+				let ok = pc(|| {
+					let mut hh = blk.header.clone();
+					pow::pow_size(&mut hh, next.difficulty, ps, min_eb).map(|_| hh)
+				});
+				match ok {
+					Some(Ok(hh)) if hh.timestamp == ts => blk.header = hh,
+					_ => return None,
+				}
+			}
+			Some(WVar {
+				kind: kind.to_string(),
+				field,
+				block: blk,
+				time_variant: tv,
+			})
+		};
+		let mut vars: Vec<WVar> = vec![WVar {
+			kind: "honest".into(),
+			field: "-",
+			block: honest.clone(),
+			time_variant: false,
+		}];
+		let push = |v: Option<WVar>, vars: &mut Vec<WVar>| {
+			if let Some(v) = v {
+				vars.push(v)
+			}
+		};
+		push(mk("badpow", "nonce", &|h| h.pow.nonce = h.pow.nonce.wrapping_add(1), false, false), &mut vars);
+		let labels: Vec<u8> = if thorough || n % 4 == 1 {
+			vec![7, 8, 9, 11, 12, 19, 20, 21, 28, 29, 30, 31, 32, 48, 62, 63]
+		} else {
+			vec![9, 11, 20, 21, 29, 31, 63]
+		};
+		for l in labels {
+			push(
+				mk(
+					&format!("eb={}", l),
+					"edge_bits",
+					&|h| {
+						h.pow.proof.edge_bits = l;
+						// on the wire the nonces are packed at the claimed width: where the honest
+						// ones do not fit, any ascending list that does
+						if h.pow.proof.nonces.iter().any(|x| (*x >> l) != 0) {
+							h.pow.proof.nonces = (0..ps as u64).map(|i| i * 3 + 1).collect();
+						}
+					},
+					false,
+					false,
+				),
+				&mut vars,
+			);
+		}
+		push(
+			mk("version+1", "version", &|h| h.version = HeaderVersion(h.version.0 + 1), true, false),
+			&mut vars,
+		);
+		push(
+			mk(
+				"version-1",
+				"version",
+				&|h| h.version = HeaderVersion(h.version.0.wrapping_sub(1)),
+				true,
+				false,
+			),
+			&mut vars,
+		);
+		// time variants: mined for the second they are decoded in
+		let n_fixed = vars.len();
+		let mut attempts = 0;
+		let mut t_sec;
+		loop {
+			vars.truncate(n_fixed);
+			t_sec = Utc::now().timestamp();
+			let lim = t_sec + ftl as i64;
+			for (kind, ts) in [
+				("ts=limit-1", lim - 1),
+				("ts=limit", lim),
+				("ts=limit+1", lim + 1),
+				("ts=limit+1day", lim + 86_400),
+			] {
+				push(mk(kind, "timestamp", &|h| set_ts(h, ts), true, true), &mut vars);
+			}
+			attempts += 1;
+			if Utc::now().timestamp() == t_sec || attempts >= 5 {
+				break;
+			}
+		}
+		// time variants first (they are the ones bound to the clock)
+		let order: Vec<usize> = (n_fixed..vars.len()).chain(0..n_fixed).collect();
+		// per variant: did every path refuse / accept, what was handed over
+		let mut let_through: Vec<(usize, String, Got)> = vec![];
+		let mut all_ok: Vec<bool> = vec![true; vars.len()];
+		for &vi in order.iter() {
+			let var = &vars[vi];
+			let cb: Option<CompactBlock> = pc(|| CompactBlock::from(var.block.clone()));
+			let old_form = features_form(&var.block);
+			for pv in 1..=3u32 {
+				let blk_form: &Block = if pv < 3 { &old_form } else { &var.block };
+				let whdr = wire_header(&var.block.header, pv);
+				let (hbytes, back) = match whdr {
+					None => {
+						stats.hit("unwritable");
+						continue;
+					}
+					Some(x) => x,
+				};
+				for path in WIRE_PATHS.iter() {
+					// the bytes of the object of this path
+					let obj_bytes: Option<Vec<u8>> = match *path {
+						"hdr" => Some(hbytes.clone()),
+						"cblk" => cb.as_ref().and_then(|c| pc(|| ser::ser_vec(c, ProtocolVersion(pv))).and_then(|r| r.ok())),
+						"blk" => pc(|| ser::ser_vec(blk_form, ProtocolVersion(pv))).and_then(|r| r.ok()),
+						"msg-hdr" => msg_bytes(Type::Header, &var.block.header, pv),
+						"msg-cblk" => cb.as_ref().and_then(|c| msg_bytes(Type::CompactBlock, c, pv)),
+						_ => msg_bytes(Type::Block, blk_form, pv),
+					};
+					let obj_bytes = match obj_bytes {
+						None => {
+							stats.hit("unwritable");
+							continue;
+						}
+						Some(x) => x,
+					};
+					let (now, (class, got)) = in_one_second(|| {
+						if path.starts_with("msg-") {
+							let (c, mut g) = decode_codec(&obj_bytes, pv);
+							(c, g.pop().unwrap_or(Got::Nothing))
+						} else {
+							decode_direct(path, &obj_bytes, pv)
+						}
+					});
+					let refusal = net_refusal(&back, now, ftl);
+					let kind_stat = if var.time_variant {
+						let off = var.block.header.timestamp.timestamp() - (now + ftl as i64);
+						if var.kind == "ts=limit" && off == 0 {
+							at_limit_in_second += 1;
+						}
+						format!(
+							"ts=limit{}",
+							match off {
+								x if x < -1 => "-many".to_string(),
+								-1 => "-1".to_string(),
+								0 => "+0".to_string(),
+								1 => "+1".to_string(),
+								x if x < 86_000 => "+few".to_string(),
+								_ => "+1day".to_string(),
+							}
+						)
+					} else {
+						var.kind.clone()
+					};
+					matrix.hit(&format!("{}|{}|{}", path, kind_stat, if class == "ok" { "ok" } else { "refused" }));
+					stats.hit(&format!("class_{}", class));
+					stats.hit(&format!("pv{}", pv));
+					if class != "ok" {
+						all_ok[vi] = false;
+					}
+					if class == "panic" {
+						fails += 1;
+						out.raw(&format!(
+							"#ORACLE-FAIL C04 network reader panicked: path={} pv={} variant={} hdr={}",
+							path, pv, var.kind, show_hdr(&var.block.header)
+						));
+					}
+					if class == "ok" {
+						if let Some(reason) = refusal {
+							fails += 1;
+							out.raw(&format!(
+								"#ORACLE-FAIL C04 path {} (protocol version {}) lets a header through that the network-side header rules refuse: rule={} variant={} field={} now={} ftl={} hdr={}",
+								path, pv, reason, var.kind, var.field, now, ftl, show_hdr(&var.block.header)
+							));
+							let_through.push((vi, format!("{}/pv{}", path, pv), got.clone()));
+						}
+					} else if refusal.is_none() {
+						fails += 1;
+						out.raw(&format!(
+							"#ORACLE-FAIL C04 path {} (protocol version {}) refuses ({}) a block that obeys every network-side header rule: variant={} now={} ftl={} hdr={}",
+							path, pv, class, var.kind, now, ftl, show_hdr(&var.block.header)
+						));
+					}
+					out.raw(&format!("# wire {} {}", path, var.kind));
+					match &back {
+						None => out.line(
+							&format!("cons wiredec {} {} auto {}", path, pv, var.block.header.pow.proof.edge_bits),
+							&class,
+						),
+						Some(w) => out.line(
+							&format!("cons wire {} {} auto {} {} {}", path, pv, now, ftl, nh_token(w)),
+							&class,
+						),
+					}
+				}
+			}
+			// a Headers message with this header at some position among honest ones
+			let known: Vec<BlockHeader> = honest_blocks.iter().rev().take(3).map(|b| b.header.clone()).collect();
+			let pv = 1 + ((vi as u32 + n) % 3);
+			let v = var.block.header.clone();
+			let list: Vec<BlockHeader> = match (vi + n as usize) % 4 {
+				0 => vec![v.clone()],
+				1 => known.iter().rev().cloned().chain(std::iter::once(v.clone())).collect(),
+				2 => std::iter::once(v.clone()).chain(known.iter().take(1).cloned()).collect(),
+				_ => {
+					let mut l: Vec<BlockHeader> = known.iter().take(2).cloned().collect();
+					l.insert(l.len().min(1), v.clone());
+					l
+				}
+			};
+			let wl: Vec<Option<BlockHeader>> = list.iter().map(|h| wire_header(h, pv).and_then(|x| x.1)).collect();
+			if let Some(mb) = msg_bytes(Type::Headers, &Headers { headers: list.clone() }, pv) {
+				let (now, (class, got)) = in_one_second(|| decode_codec(&mb, pv));
+				let first_refusal = wl.iter().filter_map(|w| net_refusal(w, now, ftl)).next();
+				let kind_stat = if var.time_variant {
+					let off = v.timestamp.timestamp() - (now + ftl as i64);
+					format!(
+						"ts=limit{}",
+						match off {
+							x if x < -1 => "-many".to_string(),
+							-1 => "-1".to_string(),
+							0 => "+0".to_string(),
+							1 => "+1".to_string(),
+							x if x < 86_000 => "+few".to_string(),
+							_ => "+1day".to_string(),
+						}
+					)
+				} else {
+					var.kind.clone()
+				};
+				matrix.hit(&format!("msg-hdrs|{}|{}", kind_stat, if class == "ok" { "ok" } else { "refused" }));
+				stats.hit(&format!("hdrs_len_{}", list.len()));
+				if class != "ok" {
+					all_ok[vi] = false;
+				}
+				let handed: Vec<BlockHeader> = got
+					.iter()
+					.flat_map(|g| match g {
+						Got::Headers(hs) => hs.clone(),
+						_ => vec![],
+					})
+					.collect();
+				let var_handed = handed.iter().any(|h| h.pow.nonce == v.pow.nonce && h.timestamp == v.timestamp && h.version == v.version && h.pow.proof.edge_bits == v.pow.proof.edge_bits);
+				if (class == "ok" || var_handed) && first_refusal.is_some() {
+					fails += 1;
+					out.raw(&format!(
+						"#ORACLE-FAIL C04 path msg-hdrs (protocol version {}) lets a header through that the network-side header rules refuse: rule={} variant={} field={} now={} ftl={} position={} of {} hdr={}",
+						pv, first_refusal.unwrap(), var.kind, var.field, now, ftl, list.iter().position(|h| h.pow.nonce == v.pow.nonce && h.timestamp == v.timestamp).unwrap_or(0), list.len(), show_hdr(&v)
+					));
+					let_through.push((vi, format!("msg-hdrs/pv{}", pv), Got::Headers(handed.clone())));
+				}
+				if class != "ok" && first_refusal.is_none() {
+					fails += 1;
+					out.raw(&format!(
+						"#ORACLE-FAIL C04 path msg-hdrs (protocol version {}) refuses ({}) a list of headers that obey every network-side rule: variant={} now={} ftl={}",
+						pv, class, var.kind, now, ftl
+					));
+				}
+				if wl.iter().all(|w| w.is_some()) {
+					let toks: Vec<String> = wl.iter().map(|w| nh_token(w.as_ref().unwrap())).collect();
+					out.raw(&format!("# wire msg-hdrs {}", var.kind));
+					out.line(
+						&format!("cons wirehs {} auto {} {} [{}]", pv, now, ftl, toks.join(",")),
+						&class,
+					);
+				}
+			}
+		}
+		// ---- what the paths let through goes on to the chain
+		// (1) anything the rules refuse but a path handed over: offered BEFORE the honest block
+		let mut tainted = false;
+		for (vi, path, got) in let_through.iter().take(6) {
+			let var = &vars[*vi];
+			let chain = &subject.chain;
+			let hh = var.block.header.hash();
+			let res: Option<Result<(), grin_chain::Error>> = match got {
+				Got::Header(h) => pc(|| chain.process_block_header(h, Options::NONE).map(|_| ())),
+				Got::Headers(hs) => pc(|| {
+					let sh = chain.header_head().unwrap();
+					chain.sync_block_headers(hs, sh, Options::SYNC).map(|_| ())
+				}),
+				Got::Full(b) => pc(|| chain.process_block(b.clone(), Options::NONE).map(|_| ())),
+				Got::Compact(c) => pc(|| match Block::hydrate_from(c.clone(), &txs) {
+					Ok(b) => chain.process_block(b, Options::NONE).map(|_| ()),
+					Err(_) => Err(grin_chain::Error::Other("hydrate".into())),
+				}),
+				Got::Nothing => None,
+			};
+			let class = match &res {
+				None => "panic-or-nothing".to_string(),
+				Some(Ok(())) => "ok".to_string(),
+				Some(Err(e)) => chain_err_class(e),
+			};
+			let head = chain.head().unwrap();
+			let hhead = chain.header_head().unwrap();
+			let became = if head.last_block_h == hh {
+				"IS NOW THE HEAD"
+			} else if hhead.last_block_h == hh {
+				"is now the header head"
+			} else if class == "ok" {
+				"was accepted (not head)"
+			} else {
+				"was refused by the chain"
+			};
+			if class == "ok" {
+				tainted = true;
+			}
+			out.raw(&format!(
+				"#ORACLE-FAIL C04 block let through by path {} (variant {}, offending field {}) offered to the chain: {} -> {}; head height {} header_head height {}; hdr={}",
+				path, var.kind, var.field, class, became, head.height, hhead.height, show_hdr(&var.block.header)
+			));
+		}
+		// (2) the honest header and block
+		let vm = Mutant {
+			kind: "valid".to_string(),
+			h: honest.header.clone(),
+			must_reject: false,
+		};
+		deliver_line(out, &mut stats, &subject.chain, &vm, &honest.header, "pbh", false, None);
+		let r = subject.chain.process_block(honest.clone(), Options::NONE);
+		builder.chain.process_block(honest.clone(), Options::MINE).unwrap();
+		honest_blocks.push(honest.clone());
+		if !tainted {
+			let hd = subject.chain.head().unwrap();
+			if r.is_err() || hd.last_block_h != honest.header.hash() {
+				fails += 1;
+				out.raw(&format!(
+					"#ORACLE-FAIL C04 honest block at height {} is not the subject's head: {:?}",
+					honest.header.height,
+					r.err()
+				));
+			}
+		}
+		// (3) siblings every path accepted (within the limit): valid competing blocks, offered after
+		// the honest one through the entry of a rotating path; the head must stay
+		for (vi, var) in vars.iter().enumerate() {
+			if tainted || !var.time_variant || !all_ok[vi] {
+				continue;
+			}
+			let m = Mutant {
+				kind: format!("sibling:{}", var.kind),
+				h: var.block.header.clone(),
+				must_reject: false,
+			};
+			let via = ["pbh", "sync", "pb"][(vi + n as usize) % 3];
+			deliver_line(out, &mut stats, &subject.chain, &m, &honest.header, via, false, Some(&var.block));
+			let hd = subject.chain.head().unwrap();
+			if hd.last_block_h != honest.header.hash() {
+				fails += 1;
+				out.raw(&format!(
+					"#ORACLE-FAIL C04 an equal-work sibling ({}) replaced the honest head at height {}",
+					var.kind, honest.header.height
+				));
+			}
+			stats.hit(&format!("sibling_via_{}", via));
+		}
+		if tainted {
+			// the subject took something it should never have seen: start it again from the honest chain
+			subject_gen += 1;
+			let dir = format!("{}/subject{}", work, subject_gen);
+			let _ = std::fs::remove_dir_all(&dir);
+			subject = open_chain(&dir, &genesis);
+			for hb in honest_blocks.iter() {
+				let _ = subject.chain.process_block(hb.clone(), Options::NONE);
+			}
+			stats.hit("subject_restarted");
+		}
+	}
+	// a long Headers message: the codec hands headers over in batches of 32; a refused header behind
+	// the first batch ends the read, and is never handed over
+	{
+		let ftl = 300u64;
+		global::set_local_future_time_limit(ftl);
+		let base: Vec<BlockHeader> = honest_blocks.iter().map(|b| b.header.clone()).collect();
+		let mut long: Vec<BlockHeader> = vec![];
+		while long.len() < 33 {
+			long.extend(base.iter().cloned());
+		}
+		long.truncate(33);
+		let cases: Vec<(&str, Box<dyn Fn(&mut BlockHeader)>)> = vec![
+			("honest", Box::new(|_h: &mut BlockHeader| {})),
+			("ts=limit+1day", Box::new(|h: &mut BlockHeader| set_ts(h, Utc::now().timestamp() + 300 + 86_400))),
+			("badpow", Box::new(|h: &mut BlockHeader| h.pow.nonce = h.pow.nonce.wrapping_add(1))),
+			("eb=21", Box::new(|h: &mut BlockHeader| h.pow.proof.edge_bits = 21)),
+		];
+		for (kind, f) in cases {
+			let mut v = base.last().unwrap().clone();
+			f(&mut v);
+			if kind.starts_with("ts=") {
+				let _ = remine(&mut v);
+			}
+			let mut list = long.clone();
+			list.push(v.clone());
+			let pv = 3;
+			if let Some(mb) = msg_bytes(Type::Headers, &Headers { headers: list.clone() }, pv) {
+				let (now, (class, got)) = in_one_second(|| decode_codec(&mb, pv));
+				let handed: usize = got
+					.iter()
+					.map(|g| match g {
+						Got::Headers(hs) => hs.len(),
+						_ => 0,
+					})
+					.sum();
+				let refusal = net_refusal(&wire_header(&v, pv).and_then(|x| x.1), now, ftl);
+				matrix.hit(&format!("msg-hdrs34|{}|{}", kind, if class == "ok" { "ok" } else { "refused" }));
+				stats.hit(&format!("hdrs34_handed_{}", handed));
+				if (refusal.is_some() && (class == "ok" || handed > 32)) || (refusal.is_none() && class != "ok") {
+					fails += 1;
+					out.raw(&format!(
+						"#ORACLE-FAIL C04 path msg-hdrs: a list of 34 headers whose last is the {} variant (rule {:?}) read as {} with {} headers handed over",
+						kind, refusal, class, handed
+					));
+				}
+				let wl: Vec<Option<BlockHeader>> = list.iter().map(|h| wire_header(h, pv).and_then(|x| x.1)).collect();
+				if wl.iter().all(|w| w.is_some()) {
+					let toks: Vec<String> = wl.iter().map(|w| nh_token(w.as_ref().unwrap())).collect();
+					out.line(
+						&format!("cons wirehs {} auto {} {} [{}]", pv, now, ftl, toks.join(",")),
+						&class,
+					);
+				}
+			}
+		}
+	}
+	stats.0.insert("at_limit_decoded_in_its_second".to_string(), at_limit_in_second);
+	if fails == 0 {
+		stats.hit("oracle_ok");
+	}
+	stats.dump(out, "wire");
+	matrix.dump(out, "wire path|variant|verdict");
+}
+
 fn main() {
 	quiet_panics();
 	let args: Vec<String> = std::env::args().collect();
@@ -3196,8 +4512,10 @@ fn main() {
 		"globals" => run_globals(&mut out, &mut rng, thorough),
 		"dbwin" => run_dbwin(&mut out, &mut rng, thorough),
 		"roots" => run_roots(&mut out, &mut rng, thorough),
+		"powsize" => run_powsize(&mut out, &mut rng, thorough),
+		"wire" => run_wire(&mut out, &mut rng, thorough),
 		_ => {
-			eprintln!("usage: cons diff|chain");
+			eprintln!("usage: cons diff|chain|known|globals|dbwin|roots|powsize|wire");
 			std::process::exit(2);
 		}
 	}
